@@ -44,7 +44,7 @@ ASSUMPTIONS = [
 KINDS = ("supervised", "semi", "knn", "unsup", "unsup_prop")
 
 
-EXPECTED_PROBES = ['irrelevant_public_call_between_predictions', 'training_identifiers_unlike_positions', 'non_contiguous_arrays', 'distance_matrix_unrelated_to_features', 'query_of_overflowing_magnitude', 'non_float64_features', 'index_arrays_passed_without_precomputed_distances', 'batch_longer_than_training_set', 'duplicates_inside_one_batch', 'model_', 'position_ge1_is_valid_training_index', 'query_equals_training_sample', 'query_raises_consistently', 'successful_predict_after_abort']
+EXPECTED_PROBES = ['integer_typed_batch_predicted', 'irrelevant_public_call_between_predictions', 'training_identifiers_unlike_positions', 'non_contiguous_arrays', 'distance_matrix_unrelated_to_features', 'query_of_overflowing_magnitude', 'non_float64_features', 'index_arrays_passed_without_precomputed_distances', 'batch_longer_than_training_set', 'duplicates_inside_one_batch', 'model_', 'position_ge1_is_valid_training_index', 'query_equals_training_sample', 'query_raises_consistently', 'successful_predict_after_abort']
 
 
 def arms(tier):
@@ -129,6 +129,8 @@ def gen_case(rng, arm, tier, k=0):
         if "XU" in case:
             case["XU"] = [[float(int(abs(v)) % 4) for v in r] for r in case["XU"]]
     case["pool"] = pool
+    if arm == "pre" and kind != "knn" and rng.random() < 0.5:
+        case["pool_first"] = True
     if arm == "pre" and rng.random() < 0.35:
         # distances that do not come from the features (the caller's own dissimilarities): with
         # a pre-computed matrix a sample is identified by its index alone
@@ -142,7 +144,9 @@ def gen_case(rng, arm, tier, k=0):
             # the same sample at several positions of one batch
             q = rng.randrange(npool)
             batch = [q if rng.random() < 0.5 else b for b in batch] + [q]
-        if arm == "abort" and r < 0.2:
+        if arm != "pre" and r > 0.97 and style in ("lattice", "dups") and not case.get("dtype"):
+            ops.append(["predict_int", batch])  # whole-number rows handed over as an integer array
+        elif arm == "abort" and r < 0.2:
             ops.append(["abort", batch, rng.randint(1, 3 * n)])
         elif r < 0.85:
             ops.append(["predict", batch])
@@ -179,6 +183,8 @@ def pool_index(case, q):
     if case["kind"] == "knn":
         p = case["pool"][q]
         return p[1] % len(case["X"])
+    if case.get("pool_first"):
+        return q  # D = [pool rows; train rows]: identifier 0 belongs to a query sample
     return len(case["X"]) + q
 
 
@@ -215,7 +221,8 @@ def build_model(case, scratch=None):
     rows = pool_rows(case)
     if case["pre"]:
         fn = m.distance_fn
-        D = [list(r) for r in case["X"]] + ([] if kind == "knn" else rows)
+        pool_first = bool(case.get("pool_first")) and kind != "knn"
+        D = (rows + [list(r) for r in case["X"]]) if pool_first else ([list(r) for r in case["X"]] + ([] if kind == "knn" else rows))
         N = len(D)
         M = np.zeros((N, N))
         if case.get("free_matrix_seed") is not None:
@@ -253,7 +260,7 @@ def build_model(case, scratch=None):
         else:
             m.pre_computed_distance = True
             m.pre_distances = M
-        I = iarr(list(range(n)))
+        I = iarr([len(rows) + i for i in range(n)]) if pool_first else iarr(list(range(n)))
     if not case["pre"] and case.get("train_ids") and kind in ("supervised", "unsup", "unsup_prop"):
         I = iarr(case["train_ids"][:n])
     if kind == "supervised":
@@ -346,6 +353,22 @@ def run_case(case):
 
         for k, op in enumerate(case["ops"]):
             kindop = op[0]
+            if kindop == "predict_int":
+                # an integer-typed batch of whole-number rows: a legal call whose own labels are not
+                # compared (other dtype, other arithmetic) but which must leave the model as it was
+                batch = [q % len(rows) for q in op[1]]
+                if case["pre"] or not batch or any(not (abs(v) < 1e15 and float(v).is_integer()) for q in batch for v in rows[q]):
+                    continue
+                Xi = np.array([[int(v) for v in rows[q]] for q in batch], dtype=np.int64)
+                out.steps += 1
+                try:
+                    m.predict(Xi, iarr([case["query_idx"][q % len(case["query_idx"])] for q in batch])) if case.get("query_idx") else m.predict(Xi)
+                    bump(out.probes, "integer_typed_batch_predicted")
+                except Exception:  # noqa: BLE001 - its own outcome is not the subject here
+                    pass
+                log.add("predict_int", tuple(batch))
+                norm.append(("predict_int", tuple(batch)))
+                continue
             if kindop in ("predict", "abort"):
                 batch = [q % len(rows) for q in op[1]]
                 if not batch:
